@@ -312,7 +312,12 @@ fn main() {
                     guarded(move || {
                         let mut buf: FixedBuf<8192> = FixedBuf::new();
                         let addr = "127.0.0.1:1".parse().unwrap();
-                        let rdr = futures_lite::io::Cursor::new(d2);
+                        // delivered in two reads, the first ending inside the blank line that ends the head (after
+                        // its 1st, 2nd or 3rd byte, by a hash of the bytes): the request exposed must not depend on it
+                        let idx = d2.windows(4).position(|w| w == b"\r\n\r\n").unwrap_or(0);
+                        let h: usize = d2.iter().map(|b| *b as usize).sum();
+                        let cut = idx + 1 + h % 3;
+                        let rdr = Script::new(d2, vec![cut, usize::MAX / 2], false, false);
                         match futures_lite::future::block_on(read_http_request(addr, &mut buf, rdr)) {
                             Ok(r) => {
                                 let mut s = format!(
